@@ -292,6 +292,8 @@ func clipAlts(alts [][]byte) string {
 
 func check(c Case) *core.Violation {
 	cur = c
+	core.Count("emitter="+c.Emitter, 1)
+	core.Count("context="+c.Context, 1)
 	src := c.Source()
 	toOut, toErr := c.routed()
 	piped := c.Kind == "file" || c.Position == "piped" || c.Position == "arrow"
@@ -508,7 +510,7 @@ func classify(c Case) core.Class {
 	o, e := c.payloads()
 	od, ed := c.dests()
 	redirected := od != "out" || ed != "err"
-	label := c.Kind + ":" + c.Emitter + ":"
+	label := c.Kind + ":"
 	if c.Kind == "file" {
 		app := strings.Contains(c.Op, ">>") || strings.Contains(c.Op, "fappend")
 		nt := c.HasPrev && len(c.Prev.Bytes()) > 0
